@@ -313,20 +313,22 @@ def setter(check: Check) -> None:
 
 
 def clear(check: Check) -> None:
+    from .common import self_effects
+
     p = check.program
     fn = p.func("OutputVariable.clear")
     check.analysed(fn)
+    eff = self_effects(p, fn)
     r = Resolver(p, fn)
     cfg = r.cfg
-    fuzzy_cleared = any(path_of(r.term(c.func.value, n)) == "self.fuzzy" for n, c in cfg.find_calls(".clear"))  # type: ignore[union-attr]
-    fuzzy_cleared = fuzzy_cleared or any(path_of(r.term(c.func.value, n)) == "self.fuzzy.terms" for n, c in cfg.find_calls(".clear"))  # type: ignore[union-attr]
-    stores = {}
-    for n in cfg.stmt_nodes():
-        for t in cfg.stores_at(n):
-            if isinstance(t, ast.Attribute) and r.term(t.value, n) == SELF:
-                stores[t.attr] = const_value(r.term(n.ast.value, n))  # type: ignore[union-attr]
+    fuzzy_cleared = any(v[0] == "call" and v[1] == ("const", "clear") for v in eff.get("fuzzy", []) + eff.get("fuzzy.terms", []))
     uncond = all(not cfg.must_guards(n) for n in cfg.stmt_nodes())
     isnan = lambda v: isinstance(v, float) and v != v  # noqa: E731
+
+    def last_is_nan(attrs) -> bool:
+        vals = [v for a_ in attrs for v in eff.get(a_, [])]
+        return bool(vals) and all(isnan(const_value(v)) for v in vals)
+
     check.require(fuzzy_cleared and uncond, "O8", "OutputVariable.clear/fuzzy", "clear() empties the fuzzy output", loc(fn))
-    check.require(isnan(stores.get("previous_value")), "O8", "OutputVariable.clear/previous", "clear() resets previous_value to NaN", loc(fn))
-    check.require(isnan(stores.get("value", stores.get("_value"))), "O8", "OutputVariable.clear/value", "clear() resets value to NaN", loc(fn))
+    check.require(last_is_nan(["previous_value"]), "O8", "OutputVariable.clear/previous", "clear() resets previous_value to NaN", loc(fn))
+    check.require(last_is_nan(["value", "_value"]), "O8", "OutputVariable.clear/value", "clear() resets value to NaN", loc(fn))
